@@ -13,7 +13,8 @@
 // Sub-checks
 //   adapt.step      one sample per call: e = d - y bit-exactly, a-priori y from coeffs() read before the sample,
 //                   y / e / coeffs against the long-double recursion (1e-9 relative)
-//   adapt.long      the same per-sample drive over 200 (thorough 1000) unlocked samples on one object, reduced parameter set
+//   adapt.long      the same per-sample drive over 200 (thorough 1000) unlocked samples on one object, reduced parameter set, and over
+//                   horizons > 1.2*745/|ln f| for every geometric parameter f (leak, lambda) in {0.5, 0.9} (thorough 0.99)
 //   rls.batch       RLS coefficients after every sample against the long-double normal-equation solution
 //   adapt.hist      all framings x all lock schedules: locked frames are the fixed FIR with coeffs() and leave it
 //                   bit-identical, every history agrees with the per-sample drive under the same lock pattern
@@ -416,10 +417,17 @@ static bool step_drive(Ctx& ctx, const Cfg& cfg, uint64_t cfg_hash, const std::v
             ctx.fail(site, fmt("coeffs() has %d entries", ca.size()), fmt("%d", L), detail("size", k));
             return false;
         }
+        for (int j = 0; j < L; ++j)
+            if (!TT<T>::fin(ca[j])) {
+                if (opt.ref_allowed) ctx.fail(site, fmt("coeffs()[%d] is not finite after sample %d (stable configuration, finite input)", j, k), "finite", detail("finite_coeffs", k));
+                else ctx.note("adapt: run left the finite range (unstable step), stopped");
+                return false;
+            }
         // long-double recursion
         if (ref_on) {
             cld er;
             const cld yr = ref.step(x[k], d[k], lk, &er);
+            if (cfg.kind == K_RLS && opt.tag[0]) ctx.worst(fmt("%srls reference condition estimate, lambda=%g len=%d", opt.tag, cfg.lambda, L), (double)ref.cond);
             if (cfg.kind == K_RLS && ref.cond > opt.condmax) {
                 ref_on = false;
                 ctx.note("adapt.step: reference ill-conditioned (cond > 1e8), comparison stopped for the configuration");
@@ -978,6 +986,46 @@ int main(int argc, char** argv) {
                         ctx.note(std::string("adapt.long ") + KNAME[cfg.kind] + (cplx ? " complex" : " real"));
                     }
         }
+    }
+
+    // ---- adapt.long, geometric factors: any factor f^k (leak^k, lambda^k, lambda^-k) kept in a long-lived object leaves the
+    // double range after k > 745/|ln f| samples; horizons > 1.2 * 745/|ln f| for every geometric parameter, every sample
+    // judged (finite y / e / coeffs(), identities, long-double recursion)
+    {
+        struct Geo {
+            double f;
+            int horizon;
+        };
+        std::vector<Geo> geo = {{0.5, 1300}, {0.9, 8500}};
+        if (TH) geo.push_back({0.99, 90000});
+        for (const Geo& g : geo)
+            for (int len : {2, 4}) {
+                const Cfg sel[] = {Cfg{K_LMS, len, 0.1, g.f, 0, 0}, Cfg{K_NLMS, len, 0.5, g.f, 0, 0}, Cfg{K_RLS, len, 0, 0, g.f, 1}};
+                for (const Cfg& cfg : sel)
+                    for (int cplx = 0; cplx < 2; ++cplx)
+                        for (int dl : {2, 3}) {
+                            P p = cfg_params(cfg, cplx);
+                            p.kv("x", XL[0]).kv("d", DL[dl]).kv("horizon", g.horizon);
+                            if (!ctx.take("adapt.long", p)) continue;
+                            const std::vector<cld> x = make_x(0, cplx, g.horizon);
+                            const std::vector<cld> d = make_d(dl, cplx, x, make_h0(dl, cplx, len));
+                            StepOpt so;
+                            so.with_ref = true;
+                            so.ref_allowed = lms_stable(cfg, x);
+                            so.tag = "geometric horizon: ";
+                            if (!so.ref_allowed) ctx.note("adapt.long: LMS step outside the stable range for this letter (reference comparison skipped)");
+                            bool ok;
+                            if (cplx) {
+                                Trace<cmplx_t> tr;
+                                ok = step_drive<cmplx_t>(ctx, cfg, fnv(p.str()), x, d, {}, so, tr);
+                            } else {
+                                Trace<real_t> tr;
+                                ok = step_drive<real_t>(ctx, cfg, fnv(p.str()), x, d, {}, so, tr);
+                            }
+                            if (ok) ctx.nontrivial();
+                            ctx.note(fmt("adapt.long geometric %s factor %g horizon %d", KNAME[cfg.kind], g.f, g.horizon));
+                        }
+            }
     }
 
     // ---- rls.batch: RLS part of the box against the normal equations (complex data: oracle self-check only)
